@@ -228,7 +228,10 @@ def check_call(qualname, args, fn_override=None):
             kw.update(call_args[p.name])
         else:
             kw[p.name] = call_args[p.name]
-    # defaults for contract params absent from args are taken from the signature by the caller
+    # contract parameters beyond the signature are the named contents of **kwargs
+    if any(p.kind == p.VAR_KEYWORD for p in params):
+        names = {p.name for p in params}
+        kw.update({k: v for k, v in call_args.items() if k not in names})
     raised = None
     result = None
     try:
